@@ -152,7 +152,7 @@ func checkSimplified(flat []float64, idx []int, n, stride int, thr float64, what
 var _ = register("HC20_Simplify", HC20_Simplify)
 
 func HC20_Simplify() {
-	N := sym.Param("N", sym.Pick(3, 4))
+	N := sym.Param("N", 3) // end to end; 4 points do not come back from nlsat
 	K := sym.Param("K", 10)
 	sym.Bound("points", N)
 	sym.Bound("grid bits", K)
